@@ -311,6 +311,8 @@ def rule_R4(body, log):
     depth = 0
     while r > 0:
         k, t = toks[r][0], toks[r][1]
+        if k == 'p' and t == '}' and depth == 0:
+            break
         if k == 'p' and t in CLOSE:
             depth += 1
         elif k == 'p' and t in OPEN:
